@@ -751,6 +751,8 @@ class Ledger(object):
         if not fr.ok:
             fx["tag"] = "malformed"
             c.had_malformed = True
+            if getattr(fr.err, "ambiguous", False):
+                c.had_ambiguous = True      # accepted or refused: both are fine (C16.X3 stands back)
             self.taint_why("malformed")
             # how the client read a malformed packet cannot be known from outside:
             # from here on only the properties that do not depend on the protocol
